@@ -103,14 +103,12 @@ Definition with_base_asis (B NB tprec : Z) (x : fval) : outcome :=
     "unlimited" - as soon as B^prec < NB *)
 Definition auto_prec_zero (B NB prec : Z) : bool := B ^ prec <? NB.
 
-(** to_f32 / to_f64 of a non-binary float go through convert_base at 24 / 53 bits; on its
-    division route (-THRESHOLD_SMALL_EXP <= exponent < 0) repr_div may return one digit more than
-    the precision, which into_f32_internal / into_f64_internal reject with a debug assertion
-    (DESIGN 5.1 #14, owned by C06): the outcome depends on the digits of the quotient *)
-Definition to_prim_class (B : Z) (x : fval) : bool :=
-  match x with Inf => false | Fin s e => negb (B =? 2) && negb (s =? 0) && (-38 <=? e) && (e <? 0) end.
-Definition to_prim_asis (B : Z) (x : fval) : list outcome :=
-  if to_prim_class B x then [ORet; OPanic (Doc Undocumented)] else [ORet].
+(** to_f32 / to_f64 of a non-binary float go through convert_base at 24 / 53 bits.  Until 344196e its division route
+    (-THRESHOLD_SMALL_EXP <= exponent < 0) called repr_div, which may return one digit more than the precision, and
+    into_f32_internal / into_f64_internal rejected that with a debug assertion (finding F06, DESIGN 5.1 #14, owned by C06).
+    Since 344196e the route pads a short dividend, divides exactly and rounds once (Conv/ConvModel.v div_round_once,
+    Conv/ConvDivRoute.v div_round_once_fits: the result always fits the precision): the conversion always returns. *)
+Definition to_prim_asis (B : Z) (x : fval) : list outcome := [ORet].
 
 (** * Farey stepping: farey_neighbors(x, limit) for 0 < x < 1, one mediant per iteration *)
 Definition frac := (Z * Z)%type.
@@ -161,7 +159,7 @@ Definition asis (c : call) : list outcome :=
   end.
 
 (** * the open finding classes (tags of findings/C16.json) *)
-Inductive tag := TPrimRemNegative | TPrimDivUnfit | TFareyLinear | TWithBasePrecisionZero | TToPrimDigits | TFloatOperandExceedsPrecision.
+Inductive tag := TPrimRemNegative | TPrimDivUnfit | TFareyLinear | TWithBasePrecisionZero | TFloatOperandExceedsPrecision.
 Definition known (c : call) : option tag :=
   match c with
   | KPrimRem lo hi a b =>
@@ -169,7 +167,6 @@ Definition known (c : call) : option tag :=
   | KPrimDiv lo hi a b =>
       if negb (b =? 0) && negb ((lo <=? Z.quot a b) && (Z.quot a b <=? hi)) then Some TPrimDivUnfit else None
   | KFloatOpDiv B prec x y => if opdiv_long B prec x y then Some TFloatOperandExceedsPrecision else None
-  | KToPrim B x => if to_prim_class B x then Some TToPrimDigits else None
   | _ => None
   end.
 
